@@ -20,7 +20,7 @@ pub open spec fn load_error_stored(g: ModuleGraph, requested: Url, referrer: Opt
 pub open spec fn jsr_export_resolved(g0: ModuleGraph, g1: ModuleGraph, requested: Url, nv: PackageNv, exports: JsonValue,
     sub_path: Option<String>, value: &str, target: Url, collect_top: bool) -> bool {
     &&& export_lookup(exports, export_name_of(sub_path), Some(value)) // [path_taken_from_the_exports_map]
-    &&& url_join(package_url_of(nv), value@) == Some(target) // [registry_url_formed_from_package_url_and_export_path]
+    &&& url_join(package_url_of(nv), value@) == Some(target) && url_inside(target, package_url_of(nv)) // [registry_url_formed_from_package_url_and_export_path_inside_the_package]
     &&& g1.redirects@.contains_key(requested) && g1.redirects@[requested] == target // [jsr_specifier_redirected_to_the_registry_url]
     &&& (forall|u: Url| u != requested ==> (#[trigger] g1.redirects@.contains_key(u) <==> g0.redirects@.contains_key(u))
             && (g0.redirects@.contains_key(u) ==> g1.redirects@[u] == g0.redirects@[u])) // [other_redirects_untouched]
@@ -45,9 +45,11 @@ pub open spec fn unknown_export_reported(g1: ModuleGraph, requested: Url, referr
         _ => false,
     }
 }
-/// the export is unusable: the exports map has no string for it, or that string does not join to the package url
+/// the export is unusable: the exports map has no string for it, or that string does not join to the package url, or
+/// the joined url lies outside the package (an absolute url, or a `jsr:` specifier: defect F17)
 pub open spec fn export_unusable(exports: JsonValue, sub_path: Option<String>, nv: PackageNv) -> bool {
     export_lookup(exports, export_name_of(sub_path), None)
-    || exists|v: &str| export_lookup(exports, export_name_of(sub_path), Some(v)) && url_join(package_url_of(nv), v@) is None
+    || exists|v: &str| export_lookup(exports, export_name_of(sub_path), Some(v))
+          && (url_join(package_url_of(nv), v@) is None || !url_inside(url_join(package_url_of(nv), v@).unwrap(), package_url_of(nv)))
 }
 } // verus!
